@@ -55,6 +55,7 @@ def main():
     try:
         r = subprocess.run(cmd, cwd=d, capture_output=True, text=True, timeout=int(opt["timeout"]))
         out = r.stdout
+        open(os.path.join(d, "tlc.out"), "w").write(out)
     except subprocess.TimeoutExpired:
         print("%s: no counterexample within %ss" % (w, opt["timeout"]))
         shutil.rmtree(os.path.join(d, "md"), ignore_errors=True)
@@ -79,13 +80,34 @@ def main():
 
     steps = []
     for pre, act, post in cex:
-        ctx = act["context"]
-        st = {"a": act["name"], "n": ctx.get("n", ""), "p": ctx.get("p", ctx.get("n", "")), "v": ctx.get("v", ""),
+        ctx = act.get("context", {})
+        name = act["name"]
+        before = {key(m) for m in pre[1].get("net", [])}
+        after = {key(m) for m in post[1].get("net", [])}
+        if name == "Next":
+            # TLC does not split `\\E m \\in net : ...`: recover the action and its message from the change of `net'
+            gone = [m for m in pre[1].get("net", []) if key(m) not in after]
+            assert len(gone) == 1, gone
+            m0 = gone[0]
+            came = [m for m in post[1].get("net", []) if key(m) not in before]
+            if m0["kind"] == "rvq" and any(m["kind"] == "rvr" for m in came):
+                name = "RVHandle"
+            elif m0["kind"] == "aeq" and any(m["kind"] == "aer" for m in came):
+                name = "AEHandle"
+            elif m0["kind"] == "rvr" and (came or pre[1]["ns"] != post[1]["ns"]):
+                name = "RVReply"
+            elif m0["kind"] == "aer" and pre[1]["ns"] != post[1]["ns"]:
+                name = "AEReply"
+            elif pre[1]["ns"] == post[1]["ns"]:
+                name = "Lose"
+            else:
+                name = "RVReply" if m0["kind"] == "rvr" else "AEReply"
+            ctx = {"m": m0}
+        st = {"a": name, "n": ctx.get("n", ""), "p": ctx.get("p", ctx.get("n", "")), "v": ctx.get("v", ""),
               "post": {k: proj(v) for k, v in post[1]["ns"].items()}}
         if "m" in ctx:
             st["m"] = msg(ctx["m"])
             st["n"], st["p"] = st["m"]["from"], st["m"]["to"]
-        before = {key(m) for m in pre[1].get("net", [])}
         st["spawn"] = [msg(m) for m in post[1].get("net", []) if key(m) not in before and m["kind"] in ("rvq", "aeq")]
         steps.append(st)
     voters = [x for x in opt["InitVoters"].split(",") if x]
